@@ -905,7 +905,7 @@ class APIClient:
                 BluetoothGATTNotifyResponse,
                 timeout,
             )
-        except Exception:
+        except BaseException:
             remove_callback()
             raise
 
